@@ -534,6 +534,67 @@ func runC11(c *core.Ctx) {
 			c.Sample(map[string]any{"part": "cli", "case": t.label, "args": joinArgs(args), "env": env, "food.yaml": files["food.yaml"], "verdicts_seen": sortedKeys(seen)})
 		}
 	})
+	// (4) the same cases served one after the other by long-lived processes (the job server): the limit comes from
+	// another source each time - flag, variable, configuration file, nothing - and what an earlier invocation was
+	// given must not decide a later one
+	pool := newPool(c, c.Procs)
+	if pool == nil {
+		return
+	}
+	defer pool.Close()
+	rounds := c.N(2, 6)
+	core.ParallelFor(c.Procs, c.Procs, func(w, part int) {
+		srv := pool.Servers[w]
+		for rd := 0; rd < rounds; rd++ {
+			rr := c.Rng("inprocess", part*100+rd)
+			for _, i := range rr.Perm(len(cases)) {
+				t := cases[i]
+				if len(t.b) > 200 || i%c.Procs != part {
+					continue
+				}
+				chain, cyc := model.Chain(t.b)
+				files := map[string]string{"food.yaml": bookText(t.b), "log.yaml": "2021/01/24:\n  r01: 1\n  c01: 2\n  p01: 1\n"}
+				args := []string{"--no-color", "-d", "food.yaml", "-l", "log.yaml"}
+				env := map[string]string{}
+				via := t.via
+				if k := strings.Index(t.via, "-over-config:"); k > 0 {
+					files["hr.conf"] = fmt.Sprintf("[Resolver]\nMaxDepth=%s\n", t.via[k+len("-over-config:"):])
+					args = append(args, "--config", "hr.conf")
+					via = t.via[:k]
+				}
+				switch via {
+				case "flag":
+					args = append(args, "--maxdepth", fmt.Sprint(t.n))
+				case "env":
+					env["HR_MAXDEPTH"] = fmt.Sprint(t.n)
+				case "config":
+					files["hr.conf"] = fmt.Sprintf("[Resolver]\nMaxDepth=%d\n", t.n)
+					args = append(args, "--config", "hr.conf")
+				}
+				cmd := cmds[(i+rd)%len(cmds)]
+				args = append(args, cmd...)
+				srv.Write(files)
+				res := srv.App1(args, env)
+				c.Eval(1)
+				c.Count("cli_runs_in_long_lived_processes", 1)
+				c.Nontrivial("inprocess", t.label, joinArgs(cmd))
+				wantErr := cyc || chain >= t.n
+				doc := caseDoc{Files: files, Args: args, Env: env, Note: t.label + "; served by a process that has served other cases before (limits from flag, variable, configuration file and default in turn)", Observed: resDoc(res)}
+				switch {
+				case res.Panic != "":
+					c.Violation(strings.Join(cmd, " ")+"|crash", t.label+": "+clip(res.Panic, 300), doc)
+				case wantErr && res.Exit == 0:
+					c.Violation(strings.Join(cmd, " ")+"|accepts-deep-or-cyclic-after-other-runs", t.label+": exit 0 in a process that served other invocations before", doc)
+				case !wantErr && res.Exit != 0:
+					c.Violation(strings.Join(cmd, " ")+"|rejects-legal-nesting-after-other-runs", t.label+": "+clip(res.Err+res.Serr, 300)+" in a process that served other invocations before", doc)
+				}
+			}
+		}
+	})
+	jobs, deaths := pool.Stats()
+	c.Count("l2_jobs", jobs)
+	c.Count("l2_process_deaths", deaths)
+	c.Count("l2_priming_runs", pool.Primed())
 }
 
 func mkdir(d string) string { return d }
